@@ -27,7 +27,7 @@ func psiOutcome(bs []byte) Tok {
 		ds := astits.VerifPSIToData(d, &astits.Packet{}, 0)
 		items := make([]Tok, 0, len(ds))
 		for _, x := range ds {
-			items = append(items, refTableTok(x.EIT, x.NIT, x.PAT, x.PMT, x.SDT, x.TOT))
+			items = append(items, psiRefTableTok(x.EIT, x.NIT, x.PAT, x.PMT, x.SDT, x.TOT))
 		}
 		return ResOk(L(items...))
 	})
@@ -43,9 +43,9 @@ func psiXorAt(bs []byte, off int, mask []byte) []byte {
 	return out
 }
 
-// burstMask builds a burst of nbits (2..32) starting at bit sbit (0 = MSB of the first byte): first and last
+// psiBurstMask builds a burst of nbits (2..32) starting at bit sbit (0 = MSB of the first byte): first and last
 // bit of the burst flipped, the ones between at random.
-func burstMask(r *Rng, sbit, nbits int) []byte {
+func psiBurstMask(r *Rng, sbit, nbits int) []byte {
 	mask := make([]byte, (sbit+nbits+7)/8)
 	for k := 0; k < nbits; k++ {
 		if k == 0 || k == nbits-1 || r.Bool() {
@@ -72,7 +72,7 @@ func (c09) Gen(r *Rng, tier string, emit func(string, Tok)) {
 			var bs []byte
 			for try := 0; ; try++ {
 				d := psiUnit(g(r, []int{1, 0, 1}[k%3]))
-				bs = refEncodeUnit(d, nil)
+				bs = psiRefEncodeUnit(d, nil)
 				if len(bs) <= 61 || (thorough && k%4 == 3 && len(bs) <= 400) || try > 200 {
 					break
 				}
@@ -95,7 +95,7 @@ func (c09) Gen(r *Rng, tier string, emit func(string, Tok)) {
 			for j := 0; j < 40; j++ {
 				n := r.Range(2, 32)
 				s := r.Range(8, 8*len(bs)-n)
-				mask := burstMask(r, s%8, n)
+				mask := psiBurstMask(r, s%8, n)
 				emit("burst-"+name, L(I(2), B(bs), I(int64(s/8)), B(mask)))
 			}
 			for j := 0; j < 12; j++ {
@@ -130,7 +130,7 @@ func (c09) Gen(r *Rng, tier string, emit func(string, Tok)) {
 			ss = append(ss, psiGens[(k+j)%6](r, class))
 		}
 		d := psiUnit(ss...)
-		bs := refEncodeUnit(d, nil)
+		bs := psiRefEncodeUnit(d, nil)
 		emit("intact", L(I(1), B(bs)))
 		nbits := 8 * (len(bs) - 1)
 		if thorough && len(bs) <= 1100 {
@@ -158,7 +158,7 @@ func (c09) Gen(r *Rng, tier string, emit func(string, Tok)) {
 				continue
 			}
 			s := 8 + r.Intn(nbits-nb)
-			emit("burst", L(I(2), B(bs), I(int64(s/8)), B(burstMask(r, s%8, nb))))
+			emit("burst", L(I(2), B(bs), I(int64(s/8)), B(psiBurstMask(r, s%8, nb))))
 		}
 		for j := 0; j < 8; j++ {
 			cut := r.Intn(len(bs))
@@ -197,7 +197,7 @@ func (c09) Gen(r *Rng, tier string, emit func(string, Tok)) {
 			}
 		}
 		d := psiUnit(s)
-		muxerConvention(d)
+		psiMuxerConvention(d)
 		emit("mux", L(I(3), ToTok(*d)))
 	}
 }
@@ -220,16 +220,16 @@ func (c09) Run(c Tok) Tok {
 	return L()
 }
 
-// refOutcome is the reference decoder's three-way outcome of a unit.
-func refOutcome(bs []byte) (Tok, refInfo) {
-	d, info, err := refDecodeUnit(bs)
+// psiRefOutcome is the reference decoder's three-way outcome of a unit.
+func psiRefOutcome(bs []byte) (Tok, psiRefInfo) {
+	d, info, err := psiRefDecodeUnit(bs)
 	if err != nil {
 		return ResErr(0), info
 	}
-	return ResOk(L(refTables(d)...)), info
+	return ResOk(L(psiRefTables(d)...)), info
 }
 
-func isSubsequence(sub, all []Tok) bool {
+func psiIsSubsequence(sub, all []Tok) bool {
 	j := 0
 	for _, x := range sub {
 		xs := x.String()
@@ -245,7 +245,7 @@ func isSubsequence(sub, all []Tok) bool {
 }
 
 func psiOutcomeOracle(bs []byte, obs Tok) string {
-	want, info := refOutcome(bs)
+	want, info := psiRefOutcome(bs)
 	if info.oldDate {
 		return ""
 	}
@@ -285,7 +285,7 @@ func (c09) Oracle(c Tok, obs Tok) string {
 		}
 		// never a silently altered table: whatever is still delivered was in the undamaged unit
 		if obs.At(0).Int() == 0 && !eqBytes(bs, orig) {
-			if o, info := refOutcome(orig); o.At(0).Int() == 0 && !info.typedDesc && !isSubsequence(obs.At(1).L, o.At(1).L) {
+			if o, info := psiRefOutcome(orig); o.At(0).Int() == 0 && !info.typedDesc && !psiIsSubsequence(obs.At(1).L, o.At(1).L) {
 				return "a damaged unit delivers a table that the undamaged unit does not contain: " + psiShort(obs.At(1).String())
 			}
 		}
@@ -299,7 +299,7 @@ func (c09) Oracle(c Tok, obs Tok) string {
 			return "writePSIData fails on PAT/PMT content inside its domain: " + obs.String()
 		}
 		out := obs.At(1).Bytes()
-		got, _, err := refDecodeUnit(out)
+		got, _, err := psiRefDecodeUnit(out)
 		if err != nil {
 			return fmt.Sprintf("the reference decoder rejects a written section (section_length or CRC_32 wrong): %x", out)
 		}
@@ -311,8 +311,8 @@ func (c09) Oracle(c Tok, obs Tok) string {
 		if n != len(out) || len(got.Sections) != len(d.Sections) {
 			return fmt.Sprintf("section_length fields do not add up to the %d bytes written: %x", len(out), out)
 		}
-		want := L(refTables(&d)...)
-		if a, b := L(refTables(got)...).String(), want.String(); a != b {
+		want := L(psiRefTables(&d)...)
+		if a, b := L(psiRefTables(got)...).String(), want.String(); a != b {
 			return fmt.Sprintf("written sections decode to different content: got %s want %s", psiShort(a), psiShort(b))
 		}
 		if a, b := obs.At(2).String(), ResOk(want).String(); a != b {
